@@ -1053,6 +1053,11 @@ def graph_shapes(tier):
     out.append(("G/diamonds", WF({
         "a": T([N(S, ["b", "c"])]), "b": T([N(S, "d")]), "c": T([N(S, "d")]),
         "d": T([N(S, ["e", "f"])]), "e": T([N(S, "g")]), "f": T([N(S, "g")]), "g": T()})))
+    # the same next task named by two transitions of a task that also fans out
+    out.append(("G/dup-target-fanout", WF({
+        "a": T([N(S, ["notify", "sign", "archive"]), N(F, ["notify", "report", "package"])]),
+        "notify": T(), "sign": T([N(S, "s2")]), "s2": T(), "archive": T([N(S, "a2")]), "a2": T(),
+        "report": T([N(S, "r2")]), "r2": T(), "package": T([N(S, "p2")]), "p2": T()})))
     # retry command beside other targets; join: 0
     out.append(("G/retry-with-targets", WF({
         "a": T([N(F, ["cleanup", "retry"]), N(S, "b")]), "b": T(), "cleanup": T()})))
@@ -1078,6 +1083,8 @@ INLINE_VALUES = [
     ("<% ctx(x) %>", "<% ctx(x) %>"), ("{{ ctx('x') }}", "{{ ctx('x') }}"),
     ('"<% ctx(x) %>"', "<% ctx(x) %>"), ("<% ctx(x) + 1 %>", "<% ctx(x) + 1 %>"),
     ("'it is'", "it is"), ('"semi;colon"', "semi;colon"),
+    ("'say \"hi\"'", 'say "hi"'), ('"it\'s"', "it's"), ("'\"x\"'", '"x"'), ("'a \"b\" c'", 'a "b" c'),
+    ('"\'x\'"', "'x'"),
 ]
 
 DELIMS = [" ", ", ", "; ", ","]
